@@ -84,7 +84,9 @@ def spec_wg(tier):
     if tier != "quick":
         grid += [{"src": s, "wts": w} for s in ("c", "da", "ac") for w in ("wi", "tw", "ws", "io", "ww", "ts")]
     rand = [{"src": "dac", "wts": "wis"}, {"src": "ca", "wts": "wti"}, {"src": "dd", "wts": "iso"}, {"src": "S", "wts": "tis"}]
-    mc = [("WaitGroup_MC.cfg", 8, 900, "WaitGroup: sources {d,a,c,S,da} x waiters {w,t,i,s,o,wi,tw,ws}, all interleavings")]
+    mc = [("WaitGroup_MC.cfg", 8, 900, "WaitGroup: sources {d,a,c,S,da} x waiters {w,t,i,s,o,wi,tw,ws}, all interleavings"),
+          ("WaitGroup_Live.cfg", 4, 900, "WaitGroup: <>Quiescent under weak fairness of every thread (every waiter is eventually "
+           "released, whether or not the deadline fires)")]
     if tier != "quick":
         mc.append(("WaitGroup_MC3.cfg", 12, 3000, "WaitGroup: up to 3 sources / 2 waiters incl. two coroutines and timed + coroutine"))
     return ConcSpec(
@@ -99,7 +101,7 @@ def spec_wg(tier):
 
 def spec_comutex(tier):
     grid = []
-    pairs = [("a", "a"), ("ab", "ac"), ("sc", "hb"), ("tg", "ya"), ("cs", "cs"), ("b", "s")]
+    pairs = [("a", "a"), ("ab", "ac"), ("sc", "hb"), ("tg", "ya"), ("cs", "cs"), ("b", "s"), ("zb", "az")]
     for o in ("00", "01", "10", "11"):
         for w in ("1", "2"):
             for p1, p2 in pairs:
@@ -109,7 +111,9 @@ def spec_comutex(tier):
         grid.append({"opts": o, "workers": "2", "p1": "s", "p2": "a", "p3": "t"})
     rand = [{"opts": o, "workers": "3", "p1": "abc", "p2": "sca", "p3": "tac"} for o in ("00", "01", "10", "11")]
     rand += [{"opts": o, "workers": "2", "p1": "hbs", "p2": "gcy", "p3": "ab", "p4": "sc"} for o in ("10", "11")]
-    mc = [("CoMutex_MC.cfg", 8, 900, "CoMutex: 2 coroutines x 2 rounds, 6 form pairs, 4 option sets, 1-2 workers, all interleavings")]
+    mc = [("CoMutex_MC.cfg", 8, 900, "CoMutex: 2 coroutines x 2 rounds, 6 form pairs, 4 option sets, 1-2 workers, all interleavings"),
+          ("CoMutex_LiveP.cfg", 4, 900, "CoMutex protocol: <>Quiescent under weak fairness of the workers (every request is "
+           "eventually granted, also on a single worker), 2-3 coroutines, 4 option sets")]
     if tier != "quick":
         mc.append(("CoMutex_MC3.cfg", 12, 3000, "CoMutex: 3 coroutines, 4 option sets, 2 workers"))
         mc.append(("CoMutex_Live.cfg", 4, 1800, "CoMutex: every request is eventually granted under weak fairness of the workers"))
@@ -135,7 +139,9 @@ def spec_cosmutex(tier):
     rand += [{"opts": o, "workers": "2", "p1": "rrw", "p2": "wwr", "p3": "rw", "p4": "wr"} for o in ("10", "01")]
     mc = [("CoSharedMutex_MC.cfg", 12, 900, "CoSharedMutex: 3 coroutines (readers / writers / tries), 4 option sets, 2 workers, "
            "all interleavings, with happens-before bookkeeping"),
-          ("CoSharedMutex_P.cfg", 12, 900, "CoSharedMutex protocol only: 3-4 coroutines, 4 option sets")]
+          ("CoSharedMutex_P.cfg", 12, 900, "CoSharedMutex protocol only: 3-4 coroutines, 4 option sets"),
+          ("CoSharedMutex_Live.cfg", 4, 900, "CoSharedMutex protocol: <>Quiescent under weak fairness of the workers (nobody "
+           "is parked forever), 3 coroutines, 1-2 workers")]
     if tier != "quick":
         mc.append(("CoSharedMutex_P2.cfg", 14, 3000, "CoSharedMutex protocol only: 2 rounds per coroutine"))
     return ConcSpec(
@@ -167,7 +173,8 @@ def spec_await(tier):
         name="Await", scenario="aw", grid=grid, primary="C13",
         inv_props={"NoRace": ("C13", "C04"), "EndState": ("C13", "C03"), "AbsEnd": ("C13", "C03")},
         mc_cfgs=[("Await_MC.cfg", 8, 600, "Await: {co_await, Await, AwaitSticky, AwaitOn} x 1-2 futures x outcomes x "
-                  "{accepting, rejecting executor}, all interleavings")],
+                  "{accepting, rejecting executor}, all interleavings"),
+                 ("Await_Live.cfg", 4, 600, "Await: <>Quiescent under weak fairness (the coroutine eventually completes)")],
         paths_cfg="Await_paths.cfg", paths_max=3000 if tier == "quick" else 40000, replay_logical=("cnt",), replay_skip_none=True,
         dfs_max=3000, preempt=None if tier != "quick" else 3,
         rand_execs=0, rand_grid=[], scen_keys=["form", "n", "outs", "exec", "dyn", "k"], trace_timeout=1500)
